@@ -326,7 +326,7 @@ func Slice(v ssa.Value, through func(c *ssa.Call) bool) map[ssa.Value]bool {
 		case *ssa.FieldAddr:
 			walk(x.X)
 		case *ssa.Call:
-			if through != nil && through(x) {
+			if _, _, isMM := MinMaxCall(x); isMM || (through != nil && through(x)) {
 				for _, a := range x.Call.Args {
 					walk(a)
 				}
